@@ -265,11 +265,11 @@ func ruleD4(c *Ctx) {
 		c.fail("D4", "GetCallIDSig", token.NoPos, "not found")
 		return
 	}
-	s := strings.ReplaceAll(c.src(fd.Body), " ", "")
-	c.check(strings.Contains(s, "ifhasIP{ifipOffs==0{sig|=SigIPStartF}elseif(ipOffs+ipLen)==len(cid){sig|=SigIPEndF}else{sig|=SigIPMiddleF}}"), "D4", "position", fd.Pos(),
+	s := c.src(fd.Body)
+	c.check(patIn(s, "if @h { if @o == 0 { @s |= SigIPStartF } else if (@o + @l) == len(@c) { @s |= SigIPEndF } else { @s |= SigIPMiddleF } }"), "D4", "position", fd.Pos(),
 		"start / end / middle are decided from (ipOffs == 0, ipOffs+ipLen == len) of the search result, only when an address was found")
-	c.check(strings.Contains(s, "hasIP,ipOffs,ipLen:=ContainsIP4(cid,nil)") && strings.Contains(s, "if!hasIP{hasIP,ipOffs,ipLen=ContainsIP6(cid,nil)}"), "D4", "search", fd.Pos(), "IPv4 is searched first, IPv6 only when no IPv4 address was found")
-	c.check(strings.Contains(s, "getStrCharsSig(cid,ipOffs,ipLen)"), "D4", "skip-span", fd.Pos(), "the character-class signature skips exactly the reported span")
+	c.check(patInAll(s, "@h, @o, @l := ContainsIP4(@c, nil)", "if !@h { @h, @o, @l = ContainsIP6(@c, nil) }"), "D4", "search", fd.Pos(), "IPv4 is searched first, IPv6 only when no IPv4 address was found")
+	c.check(patInAll(s, "@h, @o, @l := ContainsIP4(@c, nil)", "getStrCharsSig(@c, @o, @l)"), "D4", "skip-span", fd.Pos(), "the character-class signature skips exactly the reported span")
 }
 
 func init() {
